@@ -921,6 +921,23 @@ class ModuleCtx:
             elif isinstance(n, ast.ClassDef):
                 self.defs[n.name] = ClassVal(n, self)
 
+    @classmethod
+    def from_source(cls, relpath, src, globals_=None):
+        """module context over generated source text (e.g. the Python rendering of C++ functions)"""
+        self = cls.__new__(cls)
+        self.relpath = relpath
+        self.path = None
+        self.src = src
+        self.tree = ast.parse(src)
+        self.globals = dict(globals_ or {})
+        self.defs = {}
+        for n in self.tree.body:
+            if isinstance(n, ast.FunctionDef):
+                self.defs[n.name] = FuncVal(n, self, None, n.name)
+            elif isinstance(n, ast.ClassDef):
+                self.defs[n.name] = ClassVal(n, self)
+        return self
+
     def get(self, qualname):
         parts = qualname.split(".")
         v = self.defs.get(parts[0])
